@@ -927,6 +927,9 @@ class LTLayoutContainer(LTContainer[LTComponent]):
                     return (1, -box.y0, box.x0)
 
             textboxes.sort(key=getkey)
+            # number the boxes in output order, as the grouping branch does
+            for i, textbox in enumerate(textboxes):
+                textbox.index = i
         else:
             self.groups = self.group_textboxes(laparams, textboxes)
             assigner = IndexAssigner()
